@@ -60,14 +60,14 @@ UUIDS = ["UUID1", "UUID(int=0)", "UUID('ffffffff-ffff-ffff-ffff-ffffffffffff')"]
 COLORS = ["Color.RED", "Color.GREEN"]
 NUMS = ["Num.ONE", "Num.TWO"]
 SWAPS = ["Tricky.A", "Tricky.B"]
-PLAINS = ["MixEnum.X", "MixEnum.Y"]
+PLAINS = ["Plain.X", "Plain.Y"]
 OPTINTS = ["None", "0", "5"]
 
 TYPES = {
     "int": ("int", INTS), "float": ("float", FLOATS), "str": ("str", STRS), "bool": ("bool", BOOLS),
     "bytes": ("bytes", BYTES), "Decimal": ("Decimal", DECIMALS), "date": ("date", DATES), "datetime": ("datetime", DATETIMES),
     "time": ("time", TIMES), "timedelta": ("timedelta", TIMEDELTAS), "UUID": ("UUID", UUIDS), "Color": ("Color", COLORS),
-    "Num": ("Num", NUMS), "Tricky": ("Tricky", SWAPS), "MixEnum": ("MixEnum", PLAINS), "OptInt": ("Optional[int]", OPTINTS),
+    "Num": ("Num", NUMS), "Tricky": ("Tricky", SWAPS), "Plain": ("Plain", PLAINS), "OptInt": ("Optional[int]", OPTINTS),
 }
 SHAPES = ["scalar", "optional", "list", "set", "tuple", "dict", "nested", "pair",
           # containers of containers
